@@ -588,3 +588,7 @@ class LazyTextfile:
         """
         self._check_open()
         self.file_handle.write(msg)
+        # Do not rely on garbage collection order to get the text to disk: in
+        # parallel mode the handler is a copy that may be finalised late or
+        # after its own file object
+        self.file_handle.flush()
